@@ -64,7 +64,9 @@ NewTask(cmd, code, regs, handles, noEvict) ==
    ls |-> <<>>, yielded |-> FALSE, noEvict |-> noEvict, hostedNow |-> FALSE]
 
 \* exec: TRUE for the pseudo command that stands for the core's QueuingExecutor
-NewCmd(host) == [host |-> host, aborted |-> FALSE, alive |-> TRUE, out |-> {}, exec |-> FALSE]
+\* wreg: the command's AtomicWaker holds a waker of its host (poll_next registers, a wake takes)
+NewCmd(host) == [host |-> host, aborted |-> FALSE, alive |-> TRUE, out |-> {}, exec |-> FALSE,
+                 wreg |-> host # ROOT]
 Fifo == Sched = "fifo"
 
 \* kind: "never" | "once" | "many" ; kind0 is the kind the request was created with
@@ -187,16 +189,23 @@ Enq1(S, t) ==
 RECURSIVE EnqSeq(_, _)
 EnqSeq(S, ts) == IF ts = <<>> THEN S ELSE EnqSeq(Enq1(S, Head(ts)), Tail(ts))
 
-\* CommandWaker::wake_by_ref for each task of the sequence ws in turn: the task's id is queued, then
-\* the chain of parent wakers is woken (innermost host first)
+\* CommandWaker::wake_by_ref of task t: its id is queued (a stale id of a task that is gone is
+\* skipped later), then the waker its command holds for its host (registered by the host's last
+\* poll_next, taken by the first wake) is woken, and so on upwards
+RECURSIVE WakeTask(_, _)
+WakeTask(S, t) ==
+  LET S1 == IF S.tasks[t].st = "live" THEN Enq1(S, t) ELSE S
+      c  == S.tasks[t].cmd
+      h  == S.cmds[c].host IN
+  IF S1.cmds[c].wreg /\ h # ROOT
+  THEN WakeTask([S1 EXCEPT !.cmds[c].wreg = FALSE], h)
+  ELSE S1
+
 RECURSIVE Wake(_, _)
 Wake(S, ws) ==
   IF ws = <<>> THEN S
-  ELSE LET t == Head(ws) IN
-       IF t \in DOMAIN S.tasks /\ S.tasks[t].st = "live"
-       THEN Wake(EnqSeq(S, <<t>> \o HostSeq(S, t)), Tail(ws))
-       ELSE Wake(S, Tail(ws))
-
+  ELSE IF Head(ws) \in DOMAIN S.tasks THEN Wake(WakeTask(S, Head(ws)), Tail(ws))
+  ELSE Wake(S, Tail(ws))
 
 \* all tasks that disappear when the tasks in K are dropped (hosted commands go with their host)
 RECURSIVE Closure(_, _)
@@ -552,6 +561,7 @@ Forward(h) ==
             S0 == IF tasks[h].hostedNow THEN St ELSE Stale(St, h)
             S1 == PopHead([S0 EXCEPT !.cmds[tasks[h].cmd].out = @ \cup {MapItem(i, I.fe, I.fv) : i \in cmds[c].out},
                                     !.cmds[c].out = {},
+                                    !.cmds[c].wreg = TRUE,
                                     !.tasks[h].hostedNow = FALSE,
                                     !.ready = @ \ {h}], tasks[h].cmd)
         IN IF LiveIn(St, c) = {}
@@ -611,7 +621,7 @@ DropReq(r) ==
 
 \* AbortHandle::abort: sets the flag, wakes nobody.  A command that a combinator holds but has not
 \* started yet (the second operand of `then`) can already be aborted: remembered in a stub.
-AbortStub == [host |-> NONE, aborted |-> TRUE, alive |-> FALSE, out |-> {}, exec |-> FALSE]
+AbortStub == [host |-> NONE, aborted |-> TRUE, alive |-> FALSE, out |-> {}, exec |-> FALSE, wreg |-> FALSE]
 AbortCmd(c) ==
   /\ run = NONE
   /\ cmds' = IF c \in DOMAIN cmds THEN [cmds EXCEPT ![c].aborted = TRUE] ELSE (c :> AbortStub) @@ cmds
